@@ -417,6 +417,19 @@ impl State {
         )
     }
 
+    /// Returns true if the local header section (the final response, or
+    /// interim responses before it) may still be sent on this stream.
+    pub fn is_send_awaiting_headers(&self) -> bool {
+        matches!(
+            self.inner,
+            Open {
+                local: AwaitingHeaders,
+                ..
+            } | HalfClosedRemote(AwaitingHeaders)
+                | ReservedLocal
+        )
+    }
+
     /// Returns true when the stream is in a state to receive headers
     pub fn is_recv_headers(&self) -> bool {
         matches!(
